@@ -40,6 +40,10 @@ class Lbl:
         return "Lbl" + repr(self.v)
 
 
+class XTruncation(XArrayError):
+    """a non-integer value is stored into an array of integer type: numpy truncates it silently"""
+
+
 class XArray:
     __slots__ = ("shape", "data", "dtype")
 
@@ -358,6 +362,13 @@ class XArray:
             return self.data[offs[0]]
         return XArray(shape, [self.data[o] for o in offs], self.dtype)
 
+    def _check_kind(self, x):
+        """an array of integer kind ("i": built from integer literals, arange, dtype=int) truncates what is stored into it"""
+        definite = (isinstance(x, Fraction) and x.denominator != 1) or (type(x).__name__ == "MQ" and not (x.is_rational() and x.rational().denominator == 1))
+        if self.dtype == "i" and definite:
+            # (symbolic values are left alone: only a definite non-integer is a definite truncation)
+            raise XTruncation(f"the value {x!r} is stored into an array of integer type: numpy truncates it towards zero without a warning")
+
     def __setitem__(self, key, value):
         shape, offs = self._resolve_index(key)
         if isinstance(value, (list, tuple)):
@@ -365,9 +376,11 @@ class XArray:
         if isinstance(value, XArray):
             v = value.broadcast_to(shape)
             for o, x in zip(offs, v.data):
+                self._check_kind(x)
                 self.data[o] = x
         else:
             for o in offs:
+                self._check_kind(value)
                 self.data[o] = value
 
     # -- broadcasting arithmetic -------------------------------------------
